@@ -327,6 +327,7 @@ pub fn sched_config(sc: &Scenario) -> Config {
         atomics_yield: sc.c("atomics_yield") == 1,
         record_events: false,
         replay: sc.schedule.clone(),
+        rw_writer_pref: sc.c("rw_pref") == 1,
     }
 }
 
